@@ -136,3 +136,14 @@ func VerifBufferedEvents(mon Monitor) (int, bool) {
 	m.VaryingInformers.RangeValue(count)
 	return n, en
 }
+
+// VerifFactoryUsers reports, for every shared informer factory of the default store, how many handlers are registered.
+func VerifFactoryUsers() map[FactoryIndex]int {
+	DefaultFactoryStore.mu.Lock()
+	defer DefaultFactoryStore.mu.Unlock()
+	out := map[FactoryIndex]int{}
+	for idx, f := range DefaultFactoryStore.data {
+		out[idx] = len(f.handlerRegistrations)
+	}
+	return out
+}
